@@ -10,18 +10,23 @@ import driver
 from driver import hx
 
 
-def decl_lines(decl):
-    """Commands that build the parser of a declaration dict (see optmodel.py)."""
+def decl_lines(decl, first_opt=0, upto_opt=None):
+    """Commands that build the parser of a declaration dict (see optmodel.py).  With first_opt > 0
+    only the option lines from that index on are produced (a parser that grows after it was used);
+    upto_opt stops before that option index."""
     L = []
-    new = ["NEW", hx(decl.get("app", b"prog"))]
-    if decl.get("about") is not None or decl.get("group_name") is not None:
-        new.append(hx(decl.get("about") or b""))
-    if decl.get("group_name") is not None:
-        new.append(hx(decl["group_name"]))
-    L.append(" ".join(new))
-    for gi, g in enumerate(decl.get("groups", [])):
-        L.append("GRP %d %s %s" % (gi, hx(g[0]), hx(g[1])))
+    if first_opt == 0:
+        new = ["NEW", hx(decl.get("app", b"prog"))]
+        if decl.get("about") is not None or decl.get("group_name") is not None:
+            new.append(hx(decl.get("about") or b""))
+        if decl.get("group_name") is not None:
+            new.append(hx(decl["group_name"]))
+        L.append(" ".join(new))
+        for gi, g in enumerate(decl.get("groups", [])):
+            L.append("GRP %d %s %s" % (gi, hx(g[0]), hx(g[1])))
     for oi, o in enumerate(decl["opts"]):
+        if oi < first_opt or (upto_opt is not None and oi >= upto_opt):
+            continue
         cmd = {"o": "OPT", "m": "MUL", "t": "TOG"}[o["kind"]]
         g = -1 if o.get("group") is None else o["group"]
         L.append("%s %d %d %s %s" % (cmd, g, oi, hx(o["name"]), hx(o.get("desc", b""))))
@@ -43,6 +48,12 @@ def decl_lines(decl):
             L.append("OP %d" % oi)
         if o.get("rev") and o["kind"] == "t":
             L.append("RV %d" % oi)
+        # the parser is USED before it is complete (declare, use, declare more): raw driver lines after option oi
+        for at, raw in decl.get("interleave", ()):
+            if at == oi:
+                L.append(raw)
+    if first_opt > 0:
+        return L
     if decl.get("greedy") and decl.get("greedy_first"):
         L.append("GRD 1")
     if decl.get("pos") is not None:
